@@ -4,7 +4,7 @@
         channel holds 4 streams, the bidirectional one 1) and compared with what the application
         saw through the public API.
    691: operation sequences on the real result cell against [Term.cstep]. *)
-From WT.Model Require Import Base Varint Ids Frame Runner Handoff Trace Term.
+From WT.Model Require Import Base Varint Ids Frame Runner Handoff Trace Term Filter.
 From WT.Corr Require Import CorrBase.
 
 (* ---- 681 ---- *)
@@ -53,7 +53,9 @@ Fixpoint recv_flags_ok (all es : list (list N)) : bool :=
   | [] => true
   | [6; d; i; flag] :: r =>
       match session_of d i all with
-      | Some s => (flag =? (if s =? 0 then 1 else 0)) && recv_flags_ok all r
+      | Some s =>
+          (* the model's filter (Filter.accept_loop) on the one item the call took out *)
+          (flag =? match returned (accept_loop 0 [(i, s)]) with Some _ => 1 | None => 0 end) && recv_flags_ok all r
       | None => false
       end
   | _ :: r => recv_flags_ok all r
